@@ -63,10 +63,27 @@ Theorem C18_corners : forall f0 rest nc dp max_edges (rank : c18_key -> Z),
 Proof. exact c18_order_nodes_perm. Qed.
 Print Assumptions C18_corners.
 
+(* since fix c8b893ff the angles are taken between the tangent-plane projections of the chords:
+   the executable model (keys from N(a.b) - (a.n)(b.n)) equals the literal form "project node_zero
+   and node_diff with x - (x.n)n (scaled by N = n.n), then take dot products" for every n <> 0 *)
+Theorem C18_projection : forall temp_face nc dp max_edges,
+  0 < c18_dot nc nc ->
+  c18_order_nodes_literal temp_face nc dp max_edges = c18_order_nodes temp_face nc dp max_edges.
+Proof. exact c18_order_nodes_literal_eq. Qed.
+Print Assumptions C18_projection.
+
+(* ... and the projected vectors are tangent at the node *)
+Theorem C18_projection_tangent : forall n x, c18_dot (c18_proj n x) n = 0.
+Proof. exact c18_proj_orth. Qed.
+Print Assumptions C18_projection_tangent.
+
 (* ring order, PARTIAL: if the angle order agrees with the umbrella order u (the node's other
    faces counter-clockwise, consecutive ones sharing an edge), the ring is exactly f0 :: u.
-   Missing: that the 3-D chord-angle order of _order_nodes equals the azimuth order around the node
-   (false for coarse faces of very different extent); decided per output by the harness. *)
+   Missing: that the azimuth order of the face CENTRES about the node equals the umbrella order.
+   With the tangent-plane angles of c8b893ff this holds for convex faces smaller than a hemisphere
+   (the centre lies in the face's sector at the node) — a fact of spherical convexity not
+   formalised here — and fails for faces with a reflex corner (known finding
+   C18-nonconvex-centre-order); decided per output by the harness's exact checker. *)
 Theorem C18_ring_partial : forall f0 rest u nc dp max_edges (rank : c18_key -> Z),
   let mk := fun f => c18_make_key (c18_pos dp f0) nc (c18_pos dp f) in
   let keys := map mk rest in
